@@ -102,6 +102,9 @@ def run(ctx):
         a, o, t = gen_valid(ctx.rng, ctx.quick, prefix_p=0.2, empty_p=0.04)
         if ctx.rng.random() < 0.12:
             a, o, t = gen_valid_signed_sum(ctx.rng)     # explicit signs against thresholds of either sign, leaves around zero
+        elif ctx.rng.random() < 0.06:
+            a, o, t = gen_valid_huge(ctx.rng)           # a threshold over a quantity far beyond 16 bits
+            ctx.tags["huge-threshold-stream"] += 1
         for _ in range(3):
             I = gen_interp(ctx.rng, t, total=False, in_bounds=ctx.rng.random() < 0.8)
             do_case(ctx, {"ast": a, "I": {k: list(v) for k, v in I.items()}})
